@@ -19,16 +19,17 @@ Init == /\ st \in {Empty(on, dv, up) : on \in BOOLEAN, dv \in BOOLEAN, up \in BO
 \* Simulation draws the operation before its outcomes are enumerated; adding versions with a file is
 \* drawn more often so that purges have something to work on.
 Pick(S) == IF Emit THEN {RandomElement(S)} ELSE S
-Weighted == <<"add", "addfile", "addfile", "addfile", "flag", "select", "select", "getfile", "getfile",
-              "observe", "blacklist", "purge", "purge">>
-Fams == IF Emit THEN {Weighted[RandomElement(1..Len(Weighted))]} ELSE Families \ {"addfile"}
+Weighted == <<"add", "flag", "select", "getfile", "observe", "blacklist", "purge",       \* 1..7: each family once
+              "addfile", "addfile", "addfile", "select", "getfile", "purge">>
+\* (an operator without parameters would be evaluated once and cached by TLC: the draw has to go through Pick)
+FamIdx == IF Emit THEN 1..Len(Weighted) ELSE 1..7
 
 \* Histories only need the operations; in simulation the model follows the intended purge algorithm.
 Outcomes(s, o) == IF Emit /\ o.op = "Purge" THEN {Out(Ok, PurgeRef(s, o.keep))} ELSE Step(s, o)
 
 DoOp == /\ ~done
         /\ Emit => Len(hist) < MaxLen
-        /\ \E f \in Fams : \E o \in Pick(OpsOf(f, Vs)) : \E x \in Pick(Outcomes(st, o)) :
+        /\ \E i \in Pick(FamIdx) : \E o \in Pick(OpsOf(Weighted[i], Vs)) : \E x \in Pick(Outcomes(st, o)) :
               /\ st' = x.st
               /\ hist' = IF Emit THEN Append(hist, o) ELSE hist
         /\ UNCHANGED <<ini, done>>
@@ -45,7 +46,8 @@ Spec == Init /\ [][Next]_vars
 SelectionOK == WellFormed(st) /\ SelectionLaws(st)
 BlacklistOK == BlacklistLaws(st, Vs)
 PurgeOK == PurgeLaws(st)
-TotalOK == \A o \in Ops(Vs) : Step(st, o) # {}
+\* every call has an allowed outcome (for a purge: PurgeLaws, purging nothing)
+TotalOK == \A o \in Ops(Vs) : o.op # "Purge" => Step(st, o) # {}
 Depth == TLCGet("level") <= MaxLen
 View == <<st, done>>
 ====
